@@ -180,6 +180,45 @@ def run(ctx):
         T.clause_tables(R, F, dm, only_fields=chain_tables)
     # lookups answer the same whether or not the rows were committed: cache before disk, unset shadows disk
     T.clause_read_merge(R, F, scans=("get_range",))
+    # the receipt is built from the transaction it belongs to: every argument of the one set_tx_receipt call site comes from
+    # the source its parameter names (several parameters share a type: u64 x4, Address, U256 x2 - a swap compiles)
+    import wire as W2
+    st = db_fn(F, "set_tx_receipt")
+    SOURCES = {
+        "block_hash": ("block_hash",), "block_number": ("block_number",), "contract_address": ("get_contract_address", "inspect_tx_commit"),
+        "from": (".from",), "to": ("to_address_optional", ".to"), "data": (".data",), "tx_hash": ("get_tx_hash",), "tx_idx": ("tx_idx",),
+        "output": ("inspect_tx_commit",), "cumulative_gas_used": (".gas_used",), "nonce": (".nonce", "get_account_nonce"),
+        "start_log_index": (".log_index",), "inscription_id": ("inscription_id",), "gas_limit": ("get_gas_limit",),
+        "v": (".v",), "r": (".r",), "s": (".s",),
+    }
+    EXCLUDE = {"cumulative_gas_used": (".log_index", ".nonce"), "nonce": (".gas_used", ".log_index", "get_gas_limit"),
+               "start_log_index": (".gas_used", ".nonce", "get_gas_limit"), "gas_limit": (".gas_used", ".log_index", ".nonce"),
+               "from": ("to_address_optional",), "r": (".s",), "s": (".r",), "block_number": ("tx_idx",), "tx_idx": ("block_number",)}
+    n_rc = 0
+    if st is not None:
+        pn = st.j.get("param_names") or []
+        for b in ER.operation_bodies(F, "add_tx_to_block"):
+            for c in b.calls():
+                if c.target_id != st.id or b.is_cleanup(c.bb):
+                    continue
+                for nm, a in zip(pn, c.args):
+                    if nm == "self" or nm not in SOURCES:
+                        continue
+                    n_rc += 1
+                    t = W2.resolve(F, b, origin(b, a))
+                    ok = any(mentions(t, tok) for tok in SOURCES[nm]) and not any(mentions(t, tok) for tok in EXCLUDE.get(nm, ()))
+                    R.ob(ok, "WIRE", c.where(), "WIRE|receipt-args|%s" % nm,
+                         "the receipt's `%s` is built from `%s`, not from its own source (%s)" % (nm, show(t)[:70], " / ".join(SOURCES[nm])),
+                         sample={"rule": "WIRE receipt call site", "parameter": nm, "origin": show(t)[:50]} if n_rc % 5 == 1 else None)
+    R.floor("receipt_call_site_arguments", n_rc, 17)
+    # crate-wide name agreement at the call sites of the chain writers: a variable named like *another* same-typed parameter
+    # of the callee is passed in the wrong position
+    sw = W2.swapped_arguments(F, lambda g_: g_.name.startswith("db::") or g_.name.startswith("engine::"))
+    for (b_, c_, i_, j_, nm_) in sw:
+        g_ = F.fns[c_.target_id]
+        R.violation("WIRE", c_.where(), "WIRE|swapped-arguments|%s|%s" % (g_.name.split("::")[-1], nm_),
+                    "`%s` is passed as parameter `%s` of %s, which has a same-typed parameter `%s`" % (nm_, g_.j["param_names"][i_], g_.name.split("::")[-1], nm_))
+    R.ok(1, sample={"rule": "WIRE swapped arguments", "violations": len(sw)})
     # a drained transaction is indexed under its own inscription id (and runs with its own stored data)
     ER.clause_drain_own_data(R, F)
     return R
